@@ -135,16 +135,19 @@ Stacks(blocks, alive, sameCodec) ==
 
 \* IndexMerger::write_storable_fields without a sort: per source either stack (the writer's
 \* current block is closed first) or store the live documents one by one
-RECURSIVE MergeW(_, _, _, _, _)
-MergeW(srcs, alives, sizeOf, bs, w) ==
+\* (sameCodec: the sources were written with the compressor the merged store is written with;
+\* blocks of another codec must never be copied verbatim)
+RECURSIVE MergeW(_, _, _, _, _, _)
+MergeW(srcs, alives, sizeOf, bs, w, sameCodec) ==
   IF srcs = <<>> THEN w
   ELSE LET src == Head(srcs)
            live == Live(src, Head(alives))
-           w1 == IF Stacks(src, Head(alives), TRUE)
+           w1 == IF Stacks(src, Head(alives), sameCodec)
                  THEN [acc |-> CloseBlock(w).acc \o src, cur |-> <<>>, bytes |-> 0]
                  ELSE StoreAll(live, [i \in 1..Len(live) |-> sizeOf[live[i]]], bs, w)
-       IN MergeW(Tail(srcs), Tail(alives), sizeOf, bs, w1)
-Merge(srcs, alives, sizeOf, bs) == CloseBlock(MergeW(srcs, alives, sizeOf, bs, EmptyW)).acc
+       IN MergeW(Tail(srcs), Tail(alives), sizeOf, bs, w1, sameCodec)
+MergeC(srcs, alives, sizeOf, bs, sameCodec) == CloseBlock(MergeW(srcs, alives, sizeOf, bs, EmptyW, sameCodec)).acc
+Merge(srcs, alives, sizeOf, bs) == MergeC(srcs, alives, sizeOf, bs, TRUE)
 
 -----------------------------------------------------------------------------
 (* The machine: a writer adds documents and closes the store; a reader with an LRU cache of   *)
